@@ -135,7 +135,8 @@ class Scen:
             r = self.reqs[j]
             url, kw = KEYS[r.get("key", 0)]
             try:
-                async with self.session.request(r.get("method", "GET"), url + f"r{j}k{r.get('key', 0)}", data=r.get("data"), **kw) as resp:
+                extra = {"expect100": True} if r.get("expect100") else {}
+                async with self.session.request(r.get("method", "GET"), url + f"r{j}k{r.get('key', 0)}", data=r.get("data"), **extra, **kw) as resp:
                     mode = r.get("read", "read")
                     if mode == "read":
                         body = await resp.read()
@@ -165,6 +166,15 @@ class Scen:
         j = int(req.url.path.split("r")[1].split("k")[0])
         c = self.connector.index_of(proto)
         self.acq.setdefault(j, []).append((self.tick, c))
+        if c is not None:
+            # everything the client wrote so far reaches the peer before the new exchange starts
+            ct, st, peer = self.connector.created[c]
+            if st.deliverable():
+                st.deliver()
+            pending = [m for m in peer.requests() if not m.complete and m.framing != "none"]
+            if pending and self.acq.get(j) and len([a for a in self.acq[j] if a[1] == c]) >= 1 and len(peer.requests()) >= 1 and peer.answered >= 1:
+                self.P("reused-with-unsent-request-body",
+                       f"request {j} was handed connection {c} on which an earlier request declared a body that was never sent (peer answered it early)")
         t = self.taint.get(c)
         if t is not None and t < self.tick:
             self.P(f"tainted-connection-reused:{self.taint_why[c]}",
@@ -385,6 +395,11 @@ def cases(quick):
         out.append({"name": f"{b}-twice", "reqs": [dict(G), dict(G), dict(G)], "peer": [b, b, "exact"], "faults": []})
         out.append({"name": f"post-{b}", "reqs": [{"method": "POST", "data": b"xy"}, {"method": "POST", "data": b"z"}], "peer": [b, "exact"], "faults": []})
         out.append({"name": f"concurrent-{b}", "reqs": [dict(G), dict(G)], "peer": [b, "exact"], "concurrent": 2, "limit": 1, "faults": ["cancel"]})
+    # Expect: 100-continue answered with a final response and no 100 (the body is never sent)
+    for b in ("exact", "chunked", "conn-close", "1xx"):
+        for mode in ("read", "release"):
+            out.append({"name": f"expect100-early-final-{b}/{mode}", "reqs": [{"method": "POST", "data": b"xy" * 40, "expect100": True, "read": mode}, dict(G), dict(G)],
+                        "peer": [b, "exact", "exact"], "faults": ["drop"]})
     # key lattice: every pair of keys, sequentially on one session
     for a in KEYS:
         for b2 in KEYS:
